@@ -154,9 +154,9 @@ def is_expr_read(e):
 
 def peel(e):
     while True:
-        if e["k"] == "Ref":
+        if e["k"] in ("Ref", "Try"):
             e = e["expr"]
-        elif e["k"] == "MethodCall" and e["method"] in ("as_ref", "clone", "unwrap", "as_mut") and not e["args"]:
+        elif e["k"] == "MethodCall" and e["method"] in ("as_ref", "clone", "unwrap", "as_mut", "as_deref") and not e["args"]:
             e = e["recv"]
         else:
             return e
@@ -241,7 +241,7 @@ def r3(chk):
             # climb over refs / as_ref / unwrap / clone
             i = len(parents) - 1
             cur = node
-            while i >= 0 and (parents[i]["k"] == "Ref" or (parents[i]["k"] == "MethodCall" and parents[i]["recv"] is cur and parents[i]["method"] in ("as_ref", "unwrap", "clone", "as_mut"))):
+            while i >= 0 and (parents[i]["k"] in ("Ref", "Try") or (parents[i]["k"] == "MethodCall" and parents[i]["recv"] is cur and parents[i]["method"] in ("as_ref", "unwrap", "clone", "as_mut", "as_deref"))):
                 cur = parents[i]
                 i -= 1
             par = parents[i] if i >= 0 else None
@@ -263,7 +263,7 @@ def r3(chk):
             elif par["k"] == "Struct":
                 chk.ok("R3", key, EXPAND, node["line"], detail="moved into a struct literal (synthetic variant struct)")
             else:
-                chk.bad("R3", key, EXPAND, node["line"], "user expression used outside quote_action / presence test", found=par["k"] + ": " + render(par)[:80])
+                chk.inconc("R3", f"{key} at {EXPAND}:{node['line']}: user expression used in a context the taint rule does not classify: " + par["k"] + ": " + render(par)[:80])
         # a tainted name must never be a template hole
         for m, tpl in templates_in(fi.body):
             hs = set(holes(tpl)) & tainted
